@@ -1151,3 +1151,179 @@ Proof.
   split; [exact H1|]. split; [exact H2|]. split; [exact H3|]. split; [exact H4|].
   intros fr Hfr. apply dfs_spec_preorder; assumption.
 Qed.
+
+(* ====================================================================== *)
+(* 13. the fuel suffices for EVERY condition list and handler               *)
+(* ====================================================================== *)
+
+Section GenFuel.
+  Variable d : db.
+  Local Notation g := (gr d) (only parsing).
+  Hypothesis Hok : adj_ok g.
+  Variable a : algo.
+  Variable rv : bool.
+  Variable origin : Z.
+
+  Let absw := abs_work d rv.
+
+  (* weight of the elements whose slot is not yet visited *)
+  Fixpoint slot_weight (U V : list Z) : nat :=
+    match U with
+    | [] => 0
+    | x :: r => (if visited V x then 0 else weight g rv x) + slot_weight r V
+    end%nat.
+
+  Lemma slot_weight_mono : forall U V s, (slot_weight U (s :: V) <= slot_weight U V)%nat.
+  Proof.
+    induction U as [|y U IH]; intros V s; cbn [slot_weight]; [lia|].
+    specialize (IH V s). unfold visited in *. cbn [existsb].
+    destruct (Z.abs y =? s); cbn [orb]; [lia|]. destruct (existsb (Z.eqb (Z.abs y)) V); lia.
+  Qed.
+
+  Lemma slot_weight_mark : forall U V x, In x U -> visited V x = false ->
+    (slot_weight U (Z.abs x :: V) + weight g rv x <= slot_weight U V)%nat.
+  Proof.
+    induction U as [|y U IH]; intros V x Hin Hx; [contradiction|]. cbn [slot_weight].
+    destruct (Z.eq_dec y x) as [E|E].
+    - subst y. pose proof (slot_weight_mono U V (Z.abs x)). rewrite Hx.
+      unfold visited at 1. cbn [existsb]. rewrite Z.eqb_refl. cbn [orb]. lia.
+    - destruct Hin as [Hin|Hin]; [contradiction|]. specialize (IH V x Hin Hx).
+      unfold visited at 1. cbn [existsb]. fold (visited V y).
+      destruct (Z.abs y =? Z.abs x); cbn [orb]; destruct (visited V y); lia.
+  Qed.
+
+  Lemma slot_weight_nil : forall U, slot_weight U [] = unvis_weight g rv U [].
+  Proof. induction U as [|x U IH]; cbn [slot_weight unvis_weight]; [reflexivity|]. rewrite IH. reflexivity. Qed.
+
+  Definition lazy_mu (W : list (Z * Z)) (V : list Z) : nat := (length (absw W) + slot_weight (elements g) V)%nat.
+
+  (* the effect of expand on the collapsed work list, and the preservation of the work-list invariants *)
+  Lemma expand_facts : forall x k rest follow,
+    elem_work d ((x, k) :: rest) -> nonneg_work ((x, k) :: rest) ->
+    (length (absw (expand rv_fixed g a rv origin rest (x, k) follow)) + 1 =
+     length (absw ((x, k) :: rest)) + (if follow then length (succs g rv x) else 0))%nat /\
+    elem_work d (expand rv_fixed g a rv origin rest (x, k) follow) /\
+    nonneg_work (expand rv_fixed g a rv origin rest (x, k) follow).
+  Proof.
+    intros x k rest follow HW Hnn. unfold absw.
+    assert (Hx : elem_id g x = true) by (apply (HW x k); left; reflexivity).
+    assert (Hk : 0 <= k) by (apply (Hnn x k); left; reflexivity).
+    assert (HWr : elem_work d rest) by (intros y j Hy; apply (HW y j); right; exact Hy).
+    assert (Hnr : nonneg_work rest) by (intros y j Hy; apply (Hnn y j); right; exact Hy).
+    destruct (elem_cases d x Hx) as [[Hn Hpos]|[He Hneg]].
+    - (* node *)
+      rewrite abs_work_cons, (abs_item_node d rv x k Hpos). cbn [app length].
+      rewrite (succs_node d rv x Hpos).
+      unfold expand. fold (first_of d rv x).
+      destruct (0 <? x) eqn:E0; [|lia].
+      destruct follow; cbn [andb]; [|repeat split; [lia | exact HWr | exact Hnr]].
+      destruct (first_of d rv x =? 0) eqn:E1; cbn [negb].
+      + assert (E : first_of d rv x = 0) by lia. rewrite E, (sibs_zero d rv). cbn [length].
+        repeat split; [lia | exact HWr | exact Hnr].
+      + assert (Hfe : elem_id g (first_of d rv x) = true).
+        { unfold elem_id. rewrite (first_of_elem d Hok rv x Hn ltac:(lia)). apply orb_true_r. }
+        destruct (abs_item_first d Hok rv x k Hn) as [Hab|Hab]; [|lia].
+        destruct a.
+        * repeat split.
+          -- rewrite abs_work_app, abs_work_cons, abs_work_nil, Hab, app_nil_r, app_length, map_length. lia.
+          -- intros y j Hy. apply in_app_or in Hy. destruct Hy as [Hy|[Hy|[]]]; [apply (HWr y j Hy)|].
+             injection Hy as <- <-. exact Hfe.
+          -- intros y j Hy. apply in_app_or in Hy. destruct Hy as [Hy|[Hy|[]]]; [apply (Hnr y j Hy)|].
+             injection Hy as <- <-. lia.
+        * repeat split.
+          -- rewrite abs_work_cons, Hab, app_length, map_length. lia.
+          -- intros y j [Hy|Hy]; [|apply (HWr y j Hy)]. injection Hy as <- <-. exact Hfe.
+          -- intros y j [Hy|Hy]; [|apply (Hnr y j Hy)]. injection Hy as <- <-. lia.
+    - (* edge *)
+      assert (Hpos : (0 <? x) = false) by lia.
+      rewrite (succs_edge d rv x Hneg). cbn [length].
+      set (tail := if k =? 0 then [] else map (fun y => (y, k)) (sibs d rv (sibling_of d rv x))).
+      assert (Hcur : abs_work d rv ((x, k) :: rest) = (x, k) :: tail ++ abs_work d rv rest).
+      { rewrite abs_work_cons. unfold tail. destruct (k =? 0) eqn:Ek.
+        - unfold abs_item. rewrite Hpos, Ek. reflexivity.
+        - rewrite (abs_item_edge d Hok rv x k He ltac:(lia)). reflexivity. }
+      rewrite Hcur. cbn [length].
+      set (chain := negb (sibling_of d rv x =? 0) && negb (k =? 0)).
+      set (W1 := if chain then (sibling_of d rv x, k) :: rest else rest).
+      assert (Hchain : abs_work d rv W1 = tail ++ abs_work d rv rest).
+      { unfold W1, chain, tail. destruct (k =? 0) eqn:Ek; [rewrite andb_false_r; reflexivity|].
+        destruct (sibling_of d rv x =? 0) eqn:Es; cbn [negb andb].
+        - assert (E : sibling_of d rv x = 0) by lia. rewrite E, (sibs_zero d rv). reflexivity.
+        - rewrite abs_work_cons, (abs_item_sibling d Hok rv x k He ltac:(lia)). reflexivity. }
+      assert (HWc : elem_work d W1).
+      { unfold W1, chain. destruct (sibling_of d rv x =? 0) eqn:Es; cbn [negb andb]; [exact HWr|].
+        destruct (k =? 0); cbn [negb]; [exact HWr|].
+        intros y j [Hy|Hy]; [|apply (HWr y j Hy)]. injection Hy as <- <-.
+        unfold elem_id. rewrite (sibling_of_elem d Hok rv x He ltac:(lia)). apply orb_true_r. }
+      assert (Hnc : nonneg_work W1).
+      { unfold W1. destruct chain; [|exact Hnr]. intros y j [Hy|Hy]; [|apply (Hnr y j Hy)]. injection Hy as <- <-. exact Hk. }
+      assert (Hte : elem_id g (target_of d rv x) = true).
+      { unfold elem_id. rewrite (target_of_elem d Hok rv x He). reflexivity. }
+      assert (Htp : 0 < target_of d rv x).
+      { pose proof (target_of_elem d Hok rv x He) as Ht. apply node_id_bounds in Ht. lia. }
+      rewrite <- Hchain.
+      unfold expand. fold (sibling_of d rv x) (target_of d rv x). rewrite Hpos.
+      cbn [fix_edge_origin rv_fixed andb]. fold chain.
+      destruct a; destruct follow.
+      + (* BFS, follow *)
+        assert (Heq : (if chain then (sibling_of d rv x, k) :: rest ++ [(target_of d rv x, k + 1)]
+                       else rest ++ [(target_of d rv x, k + 1)]) = W1 ++ [(target_of d rv x, k + 1)]).
+        { unfold W1. destruct chain; reflexivity. }
+        rewrite Heq. repeat split.
+        * rewrite abs_work_app, abs_work_cons, abs_work_nil, (abs_item_node d rv _ _ Htp), app_length. cbn [length app]. lia.
+        * intros y j Hy. apply in_app_or in Hy. destruct Hy as [Hy|[Hy|[]]]; [apply (HWc y j Hy)|].
+          injection Hy as <- <-. exact Hte.
+        * intros y j Hy. apply in_app_or in Hy. destruct Hy as [Hy|[Hy|[]]]; [apply (Hnc y j Hy)|].
+          injection Hy as <- <-. lia.
+      + fold W1. repeat split; [lia | exact HWc | exact Hnc].
+      + (* DFS, follow *)
+        fold W1. repeat split.
+        * rewrite abs_work_cons, (abs_item_node d rv _ _ Htp). cbn [length app]. lia.
+        * intros y j [Hy|Hy]; [injection Hy as <- <-; exact Hte | apply (HWc y j Hy)].
+        * intros y j [Hy|Hy]; [injection Hy as <- <-; lia | apply (Hnc y j Hy)].
+      + fold W1. repeat split; [lia | exact HWc | exact Hnc].
+  Qed.
+
+  Lemma search_loop_terminates : forall conds h f W V c acc,
+    elem_work d W -> nonneg_work W -> (lazy_mu W V < f)%nat ->
+    search_loop rv_fixed d a rv origin conds h f W V c acc <> None.
+  Proof.
+    intros conds h. induction f as [|f IH]; intros W V c acc HW Hnn Hmu; [lia|].
+    destruct W as [|[x k] rest]; [discriminate|].
+    cbn [search_loop].
+    assert (Hx : elem_id g x = true) by (apply (HW x k); left; reflexivity).
+    assert (HWr : elem_work d rest) by (intros y j Hy; apply (HW y j); right; exact Hy).
+    assert (Hnr : nonneg_work rest) by (intros y j Hy; apply (Hnn y j); right; exact Hy).
+    destruct (expand_facts x k rest true HW Hnn) as (Ht1 & Ht2 & Ht3).
+    destruct (expand_facts x k rest false HW Hnn) as (Hf1 & Hf2 & Hf3).
+    unfold lazy_mu in *.
+    destruct (visited V x) eqn:Ev.
+    - cbn [fix_visited_chain rv_fixed andb].
+      destruct (x <? 0) eqn:Elt.
+      + apply IH; [exact Hf2 | exact Hf3 | lia].
+      + apply IH; [exact HWr | exact Hnr|].
+        destruct (elem_cases d x Hx) as [[Hn Hpos]|[He Hneg]]; [|lia].
+        unfold absw in *. rewrite abs_work_cons, (abs_item_node d rv x k Hpos) in Hmu. cbn [app length] in Hmu. lia.
+    - pose proof (slot_weight_mark (elements g) V x (elem_in_elements g x Hx) Ev) as Hm. unfold weight in Hm.
+      destruct (handle h c (eval_conditions rv_fixed d x k conds)) as [control c'].
+      destruct control as [add|add|add].
+      + apply IH; [exact Ht2 | exact Ht3 | lia].
+      + discriminate.
+      + apply IH; [exact Hf2 | exact Hf3 | lia].
+  Qed.
+
+  Theorem graph_search_no_fuel : forall conds h,
+    graph_index g origin = true \/ is_node g origin || is_edge g origin = false ->
+    graph_search rv_fixed d a rv origin conds h <> None.
+  Proof.
+    intros conds h [Ho|Ho]; unfold graph_search; [|rewrite Ho; discriminate].
+    rewrite graph_index_elem_id in Ho.
+    destruct (is_node g origin || is_edge g origin); [|discriminate].
+    apply search_loop_terminates.
+    - intros x k [H|[]]. injection H as <- <-. exact Ho.
+    - intros x k [H|[]]. injection H as <- <-. lia.
+    - unfold lazy_mu, absw. rewrite abs_work_cons, abs_work_nil. unfold abs_item. rewrite orb_true_r.
+      cbn [app length]. rewrite slot_weight_nil.
+      pose proof (mu_init g Hok rv origin) as H. unfold mu in H. cbn [length map] in H. lia.
+  Qed.
+End GenFuel.
